@@ -802,6 +802,7 @@ class FitBase(FileIOMixin, object):
         :param param_name_value_dict: new parameter values
         """
         _return_value = self._fitter.set_fit_parameter_values(**param_name_value_dict)
+        self._loaded_result_dict = None
         if self._param_model is not None:
             self._param_model.parameters = self.parameter_values
         for _par_name, _par_val in param_name_value_dict.items():
@@ -816,6 +817,7 @@ class FitBase(FileIOMixin, object):
         :param typing.Iterable[float] param_value_list: List of parameter values (mind the order).
         """
         _return_value = self._fitter.set_all_fit_parameter_values(param_value_list)
+        self._loaded_result_dict = None
         if self._param_model is not None:
             self._param_model.parameters = param_value_list
         for _par_name, _par_val in zip(self.parameter_names, param_value_list):
@@ -832,6 +834,7 @@ class FitBase(FileIOMixin, object):
             from :py:attr:`~parameter_values` will be used.
         """
         self._fitter.fix_parameter(name=name, value=value)
+        self._loaded_result_dict = None
         _par_index = self.parameter_names.index(name)
         self._get_model_function_parameter_formatters()[_par_index].fixed = True
         self._fit_param_names_bad_default.discard(name)
@@ -842,6 +845,7 @@ class FitBase(FileIOMixin, object):
         :param str name: The name of the fixed parameter to be released
         """
         self._fitter.release_parameter(name=name)
+        self._loaded_result_dict = None
         _par_index = self.parameter_names.index(name)
         self._get_model_function_parameter_formatters()[_par_index].fixed = False
 
@@ -867,6 +871,7 @@ class FitBase(FileIOMixin, object):
                 )
 
         self._fitter.limit_parameter(name=name, limits=(lower, upper))
+        self._loaded_result_dict = None
         self._fit_param_names_bad_default.discard(name)
 
     def unlimit_parameter(self, name):
@@ -875,6 +880,7 @@ class FitBase(FileIOMixin, object):
         :param str name: The name of the parameter to unlimit.
         """
         self._fitter.unlimit_parameter(name=name)
+        self._loaded_result_dict = None
 
     def add_matrix_parameter_constraint(self, names, values, matrix, matrix_type="cov", uncertainties=None, relative=False):
         """Advanced class for applying correlated constraints to several parameters of a fit.
